@@ -65,9 +65,9 @@ Theorem C12_sp_tol_subsequence : forall tol (xs : list R), 0 <= tol ->
   subl (switched_peaks tol xs) (switched_peaks 0 xs).
 Proof. exact P_C12.C12_sp_tol_subsequence. Qed.
 
-(** Every clause of the property is now a theorem about the model. Still decided by the correspondence only: that the
-    declarative model ([peaks] as a filter, [sp_loop] as a fold) is what the ediff1d/where/take pipeline and the Python loop
-    compute. *)
+(** Every clause of the property is now a theorem about the model. That the declarative model ([peaks] as a filter, [sp_loop] as a
+    fold, [zc_prune]) is what the ediff1d/where/take pipeline, the rem_i loop and the switched-peak Python loop compute is
+    proved in props/Prop_C11_pipeline.v; the reading of that transcription against the source remains with the correspondence. *)
 
 (** the excursion hypotheses are met by a concrete series: [0; 2; 3; -1] has the excursion [1..2] of sign +1 *)
 Example C12_excursion_nonvacuous : excursion [0; 2; 3; -1]%R 1 1 2.
